@@ -3,6 +3,7 @@ CONSTANTS
   Names = {"a", "b"}
   BaseLens = {0, 3, 30}
   Align = {20}
+  EndAlign = {}
   MaxOps = 7
   MaxFiles = 2
   Srcs = {"exact"}
